@@ -38,7 +38,11 @@ def fold_dict_in(model, func, name):
     return None, None
 
 
-def run(model, col, tier):
+_SHARE = [True]
+
+
+def run(model, col, tier, share=True):
+    _SHARE[0] = share
     D = Dispatch(model)
     pipe = Pipeline(model)
     gv = model.cls(GEN, "GenerateWasmVisitor")
@@ -366,7 +370,8 @@ def run(model, col, tier):
     from ..report import Collector
 
     sub = Collector("C07")
-    c07.run(model, sub, tier)
+    if _SHARE[0]:
+        c07.run(model, sub, tier)
     for ob in sub.obligations:
         # a function whose locals have other types than the registers they stand for, or whose body is framed wrongly, is an
         # invalid module: it neither agrees with the VM nor was it refused
